@@ -71,12 +71,18 @@ def reslice (cfg : TableCfg) (dims : Key) : Key :=
   | none => dims
   | some names => dims.filter (fun kv => names.contains kv.1)
 
-/-- the rows `doInsert` sends to the row store for one point: the main row (first element
-    of every value) and one extra row per further array element -/
-def pointRows (p : RawPoint) : List (List (String × Rat)) :=
+/-- the rows a point stands for: the main row (first element of every value) and one extra
+    row per further array element; `dup` = every extra row twice -/
+def pointRowsD (dup : Bool) (p : RawPoint) : List (List (String × Rat)) :=
   let main := p.vals.filterMap (fun (k, vs) => vs.head?.map (fun v => (k, v)))
   let extra := p.vals.flatMap (fun (k, vs) => (vs.drop 1).map (fun v => [(k, v)]))
-  (if main.isEmpty then [] else [main]) ++ extra
+  (if main.isEmpty then [] else [main]) ++ extra ++ (if dup then extra else [])
+
+/-- the rows `doInsert` sends to the row store for one point.  The code collects the extra
+    rows inside the callback it hands to `bytemap.Build`, which runs that callback twice
+    (sizing pass, writing pass), so every extra row is queued — and inserted — twice
+    (known finding C01-array-double; the repo's TestSingleDB expectations encode it). -/
+def pointRows (p : RawPoint) : List (List (String × Rat)) := pointRowsD true p
 
 def mkPt (p : RawPoint) (vals : List (String × Rat)) : Pt :=
   { vals := ("_point", 1) :: vals, conds := p.conds }
@@ -162,8 +168,10 @@ def writeRow (cfg : TableCfg) (tb : Int) (r : Row) : Option Row :=
   if cols.any (fun c => c.isSome) then some { r with cols := cols } else none
 
 /-- `doProcessFlush` + `fileStore.flush`.  `sorted` = the flush uses the sorting writer
-    (`allowSort ∧ shouldSort`).  With an empty memstore nothing happens. -/
-def Store.flush (cfg : TableCfg) (st : Store) (sorted : Bool) : Store :=
+    (`allowSort ∧ shouldSort`); it only changes the order of rows in the file, which is not
+    part of the model.  (Before the fix recorded in known_findings.json a sorted flush dropped
+    every raw pass-through row.)  With an empty memstore nothing happens. -/
+def Store.flush (cfg : TableCfg) (st : Store) (_sorted : Bool) : Store :=
   if st.mem.isEmpty then st
   else
     let tb := st.now - cfg.retention
@@ -178,8 +186,8 @@ def Store.flush (cfg : TableCfg) (st : Store) (sorted : Bool) : Store :=
       else
         let ms := st.mem.find? (fun m => m.key == r.key)
         if ms.isNone && rawOkay then
-          -- raw pass-through; when sorting, `doWrite` ignores `raw` and sees no columns: row dropped
-          if sorted then acc else (acc.1 ++ [r], false)
+          -- raw pass-through (sorted or not: `doWrite` writes `raw` as it is)
+          (acc.1 ++ [r], false)
         else
           let (cols, inc1) := mapFileCols outFields st.fileFields r.cols
           let (cols, inc2) := match ms with
